@@ -300,6 +300,7 @@ func Slots(p *core.Prog, r *core.Report) {
 				nRel++
 				key := fn + ":" + ref.name() + ":released"
 				leak := ssa.Instruction(nil)
+				again := ssa.Instruction(nil)
 				core.Walk(i, prune, func(x ssa.Instruction) bool {
 					if si.isClear(x, ref) {
 						return true
@@ -310,8 +311,24 @@ func Slots(p *core.Prog, r *core.Report) {
 						}
 						return true
 					}
+					// another release site of the same slot before it is emptied (the loop re-entering
+					// this very site releases the next element, not the same child)
+					if c2, ok := x.(ssa.CallInstruction); ok && x != i {
+						if _, isDefer := x.(*ssa.Defer); !isDefer {
+							if rv2, m2 := recvOf(c2); rv2 != nil && m2 == "redeem" {
+								if ref2, ok := si.origin(rv2, 0); ok && ref2.parent == ref.parent && ref2.field == ref.field && again == nil {
+									again = x
+								}
+							}
+						}
+					}
 					return false
 				})
+				if again != nil {
+					r.Bad("SLOT-POSTCLEAR", key+":once", p.Pos(i.Pos()), "the children of this slot are released here and again at "+p.Pos(again.Pos())+" before the slot is emptied: every child still pending goes into its pool twice (while the slot that is emptied in between keeps its children unreleased)")
+				} else {
+					r.OK("SLOT-POSTCLEAR", key+":once", p.Pos(i.Pos()), "no second release site of this slot is reachable before the slot is emptied")
+				}
 				if leak != nil {
 					r.Bad("SLOT-POSTCLEAR", key, p.Pos(i.Pos()), "a child validator is released but its slot is not emptied before the function exits: the next redeemChildren() releases it again (the same object twice in the pool)")
 				} else {
